@@ -288,7 +288,29 @@ def model_lines(case, impl):
         ts = " ".join(rat(v) for v in impl["t"])
         lines.append(f"C03 umecert {rat(EPS_CERT)} {1 if case['ws'] else 0} {X} {Y} {Rs} {ts} {rat(impl['c'])}")
         lines.append(f"C03 formulas {X} {Y} {Rs} {rat(impl['c'])}")
+        q = quat_hint(np.array(impl["R"]))
+        lines.append(f"C03 approx {1 if case['ws'] else 0} {X} {Y} {Rs} {ts} {rat(impl['c'])} " + " ".join(rat(v) for v in q))
     return lines
+
+
+def quat_hint(m):
+    """float quaternion (w,x,y,z) of a near-rotation matrix (Shepperd); only a hint: the driver builds the
+    exact rational rotation of whatever non-zero quaternion it is given"""
+    t = m[0, 0] + m[1, 1] + m[2, 2]
+    if t > 0:
+        s = math.sqrt(max(t + 1.0, 1e-300)) * 2
+        q = [0.25 * s, (m[2, 1] - m[1, 2]) / s, (m[0, 2] - m[2, 0]) / s, (m[1, 0] - m[0, 1]) / s]
+    else:
+        i = int(np.argmax(np.diag(m)))
+        j, k = (i + 1) % 3, (i + 2) % 3
+        s = math.sqrt(max(1.0 + m[i, i] - m[j, j] - m[k, k], 1e-300)) * 2
+        v = [0.0, 0.0, 0.0]
+        v[i] = 0.25 * s
+        v[j] = (m[j, i] + m[i, j]) / s
+        v[k] = (m[k, i] + m[i, k]) / s
+        q = [(m[k, j] - m[j, k]) / s] + v
+    q = [float(v) if math.isfinite(v) else 0.0 for v in q]
+    return q if any(q) else [1.0, 0.0, 0.0, 0.0]
 
 
 # ----------------------------------------------------------------------------- oracle helpers (float, extended precision)
@@ -429,6 +451,7 @@ def judge(ctx, case, impl, outs):
         if f[0] != "REFUSED":
             tstar = [core.parse_rat(v) for v in f[:3]]
             trA, varx = core.parse_rat(f[3]), core.parse_rat(f[4])
+            ctx.count("branch", "minimiser-unique(certPD)" if f[5] == "1" else "minimiser-not-certified-unique")
             mag = float(np.abs(y).max()) + 3 * abs(c) * float(np.abs(x).max())
             tol = 64 * 2.0 ** -53 * (mag + float(np.abs(t).max()))
             terr = max(abs(float(frac(t[i]) - tstar[i])) for i in range(3))
@@ -441,6 +464,26 @@ def judge(ctx, case, impl, outs):
                     ctx.mismatch(case, f"c*sigma_x^2 differs from tr(R^T cov) by {lhs:.3e} > {rhs:.3e}", c, float(trA / varx) if varx else None)
             elif not (c == 1.0):
                 ctx.mismatch(case, "c is not exactly 1 without scale estimation", c, 1)
+
+        # quantified gap: the model's sound bound  resid(evo) <= resid(any) + n*b  (Props/C03.umeyama_optimal_approx_checked)
+        if well:
+            ap = outs[3].split()
+            if ap[0] == "NONE":
+                ctx.mismatch(case, "approxReport certifies no optimality bound for evo's output", {"R": impl["R"], "c": c}, "NONE")
+            else:
+                eta, e2, e3, e4, e5, gap, b, vy = [core.parse_rat(v) for v in ap]
+                rel = float(b / vy) if vy > 0 else float("inf")
+                B = ctx.notes.setdefault("optimality_bound", {"cases": 0, "max_b_over_var_y": 0.0, "max_b": 0.0, "max_eta": 0.0,
+                                                              "max_rel_slacks": {"e2": 0.0, "e3": 0.0, "e5": 0.0}})
+                B["cases"] += 1
+                B["max_b_over_var_y"] = max(B["max_b_over_var_y"], rel)
+                B["max_b"] = max(B["max_b"], float(b))
+                B["max_eta"] = max(B["max_eta"], float(eta))
+                cm = float(np.abs(cov).max()) or 1.0
+                for nm, v in (("e2", e2), ("e3", e3), ("e5", e5)):
+                    B["max_rel_slacks"][nm] = max(B["max_rel_slacks"][nm], float(v) / cm)
+                if rel > 1e-7:
+                    ctx.mismatch(case, f"certified optimality bound b/var(y) = {rel:.3e} exceeds 1e-7", float(b), float(vy))
 
     # ---------------- oracle
     dev, det = exact_ortho_det(impl["R"])
@@ -586,16 +629,15 @@ def evaluate(ctx, cases):
         judge(ctx, c, i, outs[a:b])
 
 
-OPEN = ["numpy.linalg.svd is not modelled: the theorems start from the certificate umeCert 0; the driver checks umeCert with "
-        "eps = 2^-30 (relative) on evo's float output; 'certificate up to eps => optimal up to O(eps)' is argued, not formalised",
+OPEN = ["numpy.linalg.svd is not modelled: the exact theorems start from the certificate umeCert 0; the gap to evo's float "
+        "output is quantified per case by the sound executable bound approxReport (umeyama_optimal_approx_checked): "
+        "resid(evo) <= resid(any) + n*b, max b/var(y) over the run is in notes.optimality_bound",
         "refusal of nearly rank-deficient inputs (collinear off-axis, n <= 2) depends on float rounding of the singular values "
         "against the threshold max(eps, 3*eps*d_max): counted as skipped, not compared",
-        "equivariance (umeyama_equivariant_partial): proved as the residual identity under similarity maps of both sets "
-        "and invariance under permutations (so minimiser sets correspond under the composition); that the returned "
-        "result itself changes by the composition needs uniqueness of the minimiser, proved only for noise-free data "
-        "(umeyama_noise_free, three non-collinear points); on noisy data it is tested by the oracle",
+        "uniqueness / equivariance / 'align twice' theorems need the decidable condition certPD (tr(A)I-A positive definite); "
+        "where it fails (d2 = d3 in the reflection case, d2 = 0) the minimiser is genuinely not unique",
         "competitors in the optimality theorems are rational (the Q instance) or from any ordered field when the "
-        "certificate is given as a proposition (umeyama_optimal_field); competitors with scale c' < 0 are outside the class"]
+        "certificate is given as a proposition (umeyama_optimal_field, umeyama_optimal_approx); scale c' < 0 is outside the class"]
 
 
 def check(ctx):
